@@ -58,6 +58,15 @@ pub enum Expr {
     Spawned(Vec<(u32, u8)>),
     /// A read from a detached spawned helper whose value is ignored (0).
     Detached(u32, u8),
+    /// Partial function: reads the slot and panics unless the value is truthy
+    /// (a divisor that must not be zero). Only generated inside nodes whose
+    /// every reader guards the read with `If(<the same slot>, ..)`, so a
+    /// from-scratch evaluation never trips it.
+    Trap(u32, u8),
+    /// A read that the executor starts and abandons after `k` `Pending`s
+    /// (a timeout / `select!` inside an executor); the value is ignored (0).
+    /// If the read happens to complete first it is an ordinary read.
+    Abandon(u32, u8, u8),
 }
 
 #[derive(Clone, Debug, PartialEq, Eq)]
@@ -83,6 +92,8 @@ pub struct GenCfg {
     pub allow_spawn: bool,
     pub allow_detached: bool,
     pub allow_unord: bool,
+    /// guarded partial queries and abandoned reads (motif, see `decode`)
+    pub allow_partial: bool,
     pub max_depth: usize,
 }
 
@@ -97,6 +108,7 @@ impl GenCfg {
             allow_spawn: true,
             allow_detached: false,
             allow_unord: true,
+            allow_partial: true,
             max_depth: 3,
         }
     }
@@ -111,7 +123,8 @@ impl Program {
     fn lower(&self, below: usize, pj_only: bool) -> Vec<u32> {
         (0..below)
             .filter(|&i| {
-                !pj_only || matches!(self.nodes[i].kind, Kind::Fw | Kind::Pj)
+                (!pj_only || matches!(self.nodes[i].kind, Kind::Fw | Kind::Pj))
+                    && !self.is_partial(i as u32)
             })
             .map(|i| i as u32)
             .collect()
@@ -124,11 +137,97 @@ impl Program {
         let mut p = Self { nodes: Vec::with_capacity(n) };
         // number of leading leaf nodes
         let leaves = 1 + t.idx((n / 3).max(1));
-        for i in 0..n {
+        while p.nodes.len() < n {
+            let i = p.nodes.len();
             let has_fw = p
                 .nodes
                 .iter()
                 .any(|x| matches!(x.kind, Kind::Fw | Kind::Pj));
+            // "firewall switch" motif: a twin of an existing firewall (same
+            // expressions, hence always the same value), a normal query that
+            // picks one of the two by an input, and a short chain of normal
+            // queries above it. Flipping the selector changes which firewall
+            // is reachable without changing any value on the way up.
+            if i >= leaves && cfg.allow_firewall && t.chance(36) {
+                let fws = p.ids_of(|k| k == Kind::Fw);
+                let ins = p.ids_of(|k| k == Kind::In);
+                if !fws.is_empty() && !ins.is_empty() {
+                    let a = fws[t.idx(fws.len())];
+                    let twin = p.nodes[a as usize].clone();
+                    let slot = t.idx(twin.slots.len()) as u8;
+                    p.nodes.push(twin);
+                    let b = (p.nodes.len() - 1) as u32;
+                    let sel = ins[t.idx(ins.len())];
+                    p.nodes.push(Node {
+                        kind: Kind::Nq,
+                        slots: vec![Expr::Dyn(
+                            Box::new(Expr::Read(sel, 0)),
+                            vec![(a, slot), (b, slot)],
+                        )],
+                        default: Vec::new(),
+                    });
+                    for _ in 0..1 + t.idx(3) {
+                        let prev = (p.nodes.len() - 1) as u32;
+                        let add = t.idx(3) as i64;
+                        p.nodes.push(Node {
+                            kind: Kind::Nq,
+                            slots: vec![Expr::Mod(
+                                Box::new(Expr::Add(
+                                    Box::new(Expr::Read(prev, 0)),
+                                    Box::new(Expr::Const(add)),
+                                )),
+                                [5i64, 7, 100][t.idx(3)],
+                            )],
+                            default: Vec::new(),
+                        });
+                    }
+                    continue;
+                }
+            }
+            // "guarded partial query" motif: Z panics unless its guard input
+            // is truthy; R reads Z only under that guard, next to a read that
+            // it abandons half way (when reads suspend). Whatever the engine
+            // re-verifies or re-executes, it must never run Z while the guard
+            // is false: the recorded order of R's dependencies (guard before
+            // Z) is what protects Z.
+            if i >= leaves && cfg.allow_partial && t.chance(30) {
+                let ins = p.ids_of(|k| k == Kind::In);
+                let pool = p.lower(i, false);
+                if !ins.is_empty() && !pool.is_empty() {
+                    let g = ins[t.idx(ins.len())];
+                    let extra = pick_read(t, &p, &pool);
+                    p.nodes.push(Node {
+                        kind: Kind::Nq,
+                        slots: vec![Expr::Add(
+                            Box::new(Expr::Trap(g, 0)),
+                            Box::new(Expr::Read(extra.0, extra.1)),
+                        )],
+                        default: Vec::new(),
+                    });
+                    let z = (p.nodes.len() - 1) as u32;
+                    let victim = pick_read(t, &p, &pool);
+                    let other = pick_read(t, &p, &pool);
+                    let guarded = Expr::If(
+                        Box::new(Expr::Read(g, 0)),
+                        Box::new(Expr::Read(z, 0)),
+                        Box::new(Expr::Const(t.idx(3) as i64)),
+                    );
+                    let body = if t.chance(170) {
+                        Expr::Par(vec![
+                            Expr::Abandon(victim.0, victim.1, 1 + t.idx(3) as u8),
+                            Expr::Add(Box::new(Expr::Read(other.0, other.1)), Box::new(guarded)),
+                        ])
+                    } else {
+                        Expr::Add(Box::new(Expr::Read(other.0, other.1)), Box::new(guarded))
+                    };
+                    p.nodes.push(Node {
+                        kind: Kind::Nq,
+                        slots: vec![Expr::Mod(Box::new(body), [5i64, 7, 100][t.idx(3)])],
+                        default: Vec::new(),
+                    });
+                    continue;
+                }
+            }
             let kind = if i < leaves {
                 if i > 0 && cfg.allow_xt && t.chance(50) { Kind::Xt } else { Kind::In }
             } else {
@@ -169,6 +268,35 @@ impl Program {
             p.nodes.push(node);
         }
         p
+    }
+
+    /// A node with a `Trap` in one of its expressions: it must only be read
+    /// under its guard and is never requested from user level.
+    #[must_use]
+    pub fn is_partial(&self, node: u32) -> bool {
+        fn has_trap(e: &Expr) -> bool {
+            match e {
+                Expr::Trap(..) => true,
+                Expr::Add(a, b) | Expr::Mul(a, b) | Expr::Min(a, b) => has_trap(a) || has_trap(b),
+                Expr::Mod(a, _) => has_trap(a),
+                Expr::If(c, a, b) => has_trap(c) || has_trap(a) || has_trap(b),
+                Expr::Dyn(s, _) => has_trap(s),
+                Expr::Par(cs) => cs.iter().any(has_trap),
+                _ => false,
+            }
+        }
+        self.nodes[node as usize].slots.iter().any(has_trap)
+    }
+
+    /// The nearest node at or above `node` that may be requested from user
+    /// level (a partial node is always followed by its guarded reader).
+    #[must_use]
+    pub fn queryable(&self, node: u32) -> u32 {
+        let mut y = node;
+        while (y as usize) < self.nodes.len() && self.is_partial(y) {
+            y += 1;
+        }
+        if (y as usize) < self.nodes.len() { y } else { 0 }
     }
 
     #[must_use]
@@ -228,7 +356,9 @@ impl Program {
 fn collect_reads(e: &Expr, out: &mut Vec<u32>) {
     match e {
         Expr::Const(_) => {}
-        Expr::Read(n, _) | Expr::Detached(n, _) => out.push(*n),
+        Expr::Read(n, _) | Expr::Detached(n, _) | Expr::Trap(n, _) | Expr::Abandon(n, _, _) => {
+            out.push(*n);
+        }
         Expr::Add(a, b) | Expr::Mul(a, b) | Expr::Min(a, b) => {
             collect_reads(a, out);
             collect_reads(b, out);
@@ -422,6 +552,16 @@ pub fn pretty_expr(s: &mut String, p: &Program, e: &Expr) {
             rd(s, p, *n, *sl);
             s.push(')');
         }
+        Expr::Trap(n, sl) => {
+            s.push_str("trap-unless(");
+            rd(s, p, *n, *sl);
+            s.push(')');
+        }
+        Expr::Abandon(n, sl, k) => {
+            s.push_str("abandon(");
+            rd(s, p, *n, *sl);
+            let _ = write!(s, " after {k} pending)");
+        }
     }
 }
 
@@ -441,6 +581,8 @@ fn bin(s: &mut String, p: &Program, op: &str, a: &Expr, b: &Expr) {
 pub fn slot_of(v: &[i64], slot: u8) -> i64 {
     if v.is_empty() { 0 } else { v[usize::from(slot) % v.len()] }
 }
+
+pub const TRAP_SENTINEL: i64 = i64::MIN / 3;
 
 pub fn truthy(v: i64) -> bool { v.rem_euclid(2) == 1 }
 
@@ -516,6 +658,18 @@ impl<'a> Oracle<'a> {
                 acc.wrapping_add(self.read(x.0, x.1, reads))
             }),
             Expr::Detached(n, s) => {
+                let _ = self.read(*n, *s, reads);
+                0
+            }
+            Expr::Trap(n, s) => {
+                let v = self.read(*n, *s, reads);
+                // only reached when a partial node is evaluated outside its
+                // guard (comparisons of old read sets): a value no run has
+                if truthy(v) { v } else { TRAP_SENTINEL }
+            }
+            // the value is ignored, but the node may be reached (when the
+            // read completes before it is abandoned it is an ordinary read)
+            Expr::Abandon(n, s, _) => {
                 let _ = self.read(*n, *s, reads);
                 0
             }
